@@ -388,6 +388,19 @@ This command wraps "go %s". Below is its help:
 	// Note that we also need to pass build flags to 'go list', such
 	// as -tags.
 	sharedCache.ForwardBuildFlags, _ = filterForwardBuildFlags(listFlags)
+	// The toolexec sub-processes run in other directories,
+	// so a relative "-C dir" would not mean the same to them.
+	if chdir, rest := splitChdirFlag(sharedCache.ForwardBuildFlags); len(chdir) > 0 {
+		_, dir, _ := strings.Cut(chdir[len(chdir)-1], "=")
+		if len(chdir) == 2 {
+			dir = chdir[1]
+		}
+		absDir, err := filepath.Abs(dir)
+		if err != nil {
+			return nil, err
+		}
+		sharedCache.ForwardBuildFlags = append([]string{"-C", absDir}, rest...)
+	}
 	if command == "test" {
 		sharedCache.ForwardBuildFlags = append(sharedCache.ForwardBuildFlags, "-test")
 	}
@@ -475,7 +488,10 @@ This command wraps "go %s". Below is its help:
 		}
 	}
 
-	goArgs := append([]string{command}, garbleBuildFlags...)
+	// The go command only accepts -C as its very first flag.
+	chdirFlag, flags := splitChdirFlag(flags)
+	goArgs := append([]string{command}, chdirFlag...)
+	goArgs = append(goArgs, garbleBuildFlags...)
 
 	// Pass the garble flags down to each toolexec invocation.
 	// This way, all garble processes see the same flag values.
@@ -668,6 +684,30 @@ func filterForwardBuildFlags(flags []string) (filtered []string, firstUnknown st
 		}
 	}
 	return filtered, firstUnknown
+}
+
+// splitChdirFlag separates the "-C dir" build flag, in any of its spellings,
+// from the other flags, since the go command requires it to come first.
+func splitChdirFlag(flags []string) (chdir, rest []string) {
+	for i := 0; i < len(flags); i++ {
+		arg := flags[i]
+		if strings.HasPrefix(arg, "--") {
+			arg = arg[1:] // "--name" to "-name"
+		}
+		switch {
+		case arg == "-C" && i+1 < len(flags):
+			rest = append(flags[:i:i], flags[i+2:]...)
+			return flags[i : i+2 : i+2], rest
+		case strings.HasPrefix(arg, "-C="):
+			rest = append(flags[:i:i], flags[i+1:]...)
+			return flags[i : i+1 : i+1], rest
+		}
+		if booleanFlags[arg] || strings.Contains(arg, "=") {
+			continue
+		}
+		i++ // "-name value", so the next arg is part of this flag.
+	}
+	return nil, flags
 }
 
 // rejectUnknownBuildFlags errors on the first non-build flag in flags, if any.
